@@ -47,7 +47,7 @@ func TestStress(t *testing.T) {
 		fm := []string{"nclient4", "nclient6"}[i%2]
 		f := fam(fm)
 		rng := r.Rand("stress", i)
-		o := cstress.Opts{Callers: 8, PerCaller: 3 + rng.IntN(5), XidPool: 2 + rng.IntN(8), CloseMid: i%7 == 6, T: time.Duration(2+rng.IntN(8)) * time.Millisecond, Cfg: rng.IntN(cli.NCfg)}
+		o := cstress.Opts{Callers: 8, PerCaller: 3 + rng.IntN(5), XidPool: 2 + rng.IntN(8), CloseMid: i%7 == 6, T: time.Duration(2+rng.IntN(8)) * time.Millisecond, Cfg: rng.IntN(cli.NCfg), Tries: []int{1, 1, 2, 3, 1, 1}[i%6]}
 		h := cstress.Run(f, rng, o)
 		r.Eval(1)
 		accept := func(matcher string, d *cstress.Dgram, _ string) bool {
